@@ -18,8 +18,16 @@ except ImportError:                                            # stand-alone sel
     sys.path.insert(0, os.path.join(os.path.dirname(os.path.abspath(__file__)), "..", ".."))
     import common
 
+# Octet strings are rendered 7 octets per primitive-integer literal: Coq elaborates a `list N` literal at
+# ~80 us per element, which would dominate the whole check.  `unpack` lives in the generated case files
+# only (it is not part of the model or of any theorem).
 PREAMBLE = ("From H2V Require Import Base.Tac Base.Bytes Gen.FrameConsts Ref.Rfc9113Frame "
-            "Model.FrameCodec Model.ReadBuf Model.WriteBuf.\nLocal Open Scope N_scope.")
+            "Model.FrameCodec Model.ReadBuf Model.WriteBuf.\nFrom Coq Require Import Uint63.\n"
+            "Local Open Scope N_scope.\n"
+            "Definition w7 (x : int) : list N := let v := Z.to_N (Uint63.to_Z x) in\n"
+            "  [(v / 281474976710656) mod 256; (v / 1099511627776) mod 256; (v / 4294967296) mod 256;\n"
+            "   (v / 16777216) mod 256; (v / 65536) mod 256; (v / 256) mod 256; v mod 256].\n"
+            "Definition unpack (len : N) (ws : list int) : list N := firstn (N.to_nat len) (flat_map w7 ws).")
 CORPUS = os.path.join(common.VERIF, "corpus", "framecodec")
 
 # documented single-frame differences between h2 and the RFC grammar (FrameCodec.v `deviation`);
@@ -39,7 +47,18 @@ def N(x):
 
 
 def NL(xs):
-    return common.coq_N_list(xs)
+    xs = [int(x) for x in xs]
+    if len(xs) < 24:
+        return common.coq_N_list(xs)
+    words = []
+    for i in range(0, len(xs), 7):
+        ch = xs[i:i + 7]
+        ch = ch + [0] * (7 - len(ch))
+        v = 0
+        for b in ch:
+            v = v * 256 + b
+        words.append("%d%%uint63" % v)
+    return "(unpack %d [%s])" % (len(xs), "; ".join(words))
 
 
 def OPT(x):
